@@ -122,3 +122,10 @@ Proof.
     + intros; apply H1; auto. now right.
 Qed.
 
+Lemma join_ctx_nil L : all_wf L -> join_ctx [] L = L.
+Proof.
+  induction L as [|m L IH]; intros W; [reflexivity|].
+  rewrite join_ctx_cons, compatible_nil_r. rewrite merge_nil_l by (apply W; now left).
+  cbn [app]. f_equal. apply IH. intros x I; apply W; now right.
+Qed.
+
